@@ -136,6 +136,12 @@ def make_event(rnd, eid, cl, target_elem, cal, tag):
         for f in ("level", "version", "task", "op", "ts"):
             if rnd.random() < 0.5:
                 ev[f] = rand_text(rnd, cl, rnd.randint(1, 24))
+        # the thread id of a foreign / damaged event file may hold any text as well; it is reported as a number (a text
+        # that is none becomes 0: one digit, like the calibration's "7", so the predicted element size is unchanged)
+        if rnd.random() < 0.25:
+            t = rand_text(rnd, cl, rnd.randint(1, 24))
+            if not t.strip().lstrip("+").isdigit():
+                ev["tid"] = t
     other = sum(MULT[f] * esc_len(ev[f]) for f in MULT if f != "message")
     token = "EVT-%s-%d:" % (tag, eid)
     head = rand_text(rnd, cl, rnd.randint(0, 60))
@@ -621,9 +627,13 @@ def confirm_and_report(c, case, why, obs, bindir, cal, label):
     rows, batches, posts, diags, extra = observe(case, res[0], res[0]["_out"], cal)
     shutil.rmtree(d, ignore_errors=True)
     ok, why2, _ = validate_trace(c, "TelemetryTrace", "TelemetryTrace.cfg", rows, "c18_confirm_%s" % label, count=0)
-    if ok or why2 != why:
+    if ok:
         c.extra.setdefault("unreproduced", []).append({"case": case["id"], "first": why, "second": why2})
         return False
+    if why2 != why:
+        # rejected again, by another clause of the property (timing-dependent behaviour): the second verdict is reported
+        c.extra.setdefault("reproduced_under_another_clause", []).append({"case": case["id"], "first": why, "second": why2})
+        why, obs = why2, dict(obs, diags=diags)
     inv = why.replace("invariant ", "")
     diag = (diags[0] if diags else obs["reason"] if inv == "P_Terminates" else "").split(":")[0]
     nev = sum(len(f["events"]) for f in case["meta"]["files"])
@@ -822,7 +832,7 @@ def run(c):
               "pairs executed" % (len(behs), len(keys)))
     if skipped and not c.violations:
         raise util.ToolError("%d cases were not executed after wall-clock limits and no violation was confirmed" % skipped)
-    if c.extra.get("unreproduced"):
+    if c.extra.get("unreproduced") and not c.violations:
         c.finish()
         raise util.ToolError("a rejected trace did not reproduce from its artefact: %s" % c.extra["unreproduced"])
 
